@@ -16,8 +16,10 @@ EXTENDS Integers, Sequences, FiniteSets, TLC, Json
 CONSTANTS MaxOps, Pools
 
 Kinds  == {"ae", "rv", "pv", "is", "tn", "pipe", "pipestall"}
-Faults == {"none", "cutreq", "cutresp", "slowhandler", "handlererr"}
+Faults == {"none", "cutreq", "cutresp", "slowhandler", "handlererr", "cutpooled"}
 Op == [kind : Kinds, fault : Faults]
+\* "cutpooled": the exchange travels over a POOLED connection (one earlier exchange succeeded on it), the request reaches
+\* the handler completely and the connection is closed before the first byte of the response (a clean end of file)
 \* a connection failure makes no sense for every combination: keep the meaningful ones
 \* "pipestall": more requests than the pipeline holds are sent while the consumer of the pipeline stalls for longer than
 \* the transport timeout (back-pressure), then everything is consumed and more requests follow on the same pipeline
